@@ -118,6 +118,7 @@ class ContractSet:
         self.ghosts = {}    # typename (pkg.T) -> {field: typetext}
         self.lemmas = []
         self.files = []
+        self.refines = {}       # (concrete type key text, pkg) entries: list of dicts
         self.pkg_invs = {}      # pkg -> [Clause]: facts about package-level variables, assumed at entry
         self.execs = {}         # (pkg, spec name) -> Go function literal
         self.exec_imports = {}  # pkg -> {alias: path}
@@ -278,6 +279,8 @@ def parse_file(path, cs, repo='/repo', default_pkg=None):
             cur.opts[k] = v.strip()
         elif kw == 'may-panic':
             cur.may_panic = True
+        elif kw == 'allow-explicit-panic':
+            cur.opts['explicit-panic'] = 'allowed'
         elif kw == 'panics-if':
             cur.panics_if.append(mk(rest))
         elif kw == 'requires':
@@ -297,10 +300,10 @@ def parse_file(path, cs, repo='/repo', default_pkg=None):
                 cur.modifies.append(mk(part))
         elif kw == 'call':
             # call <callee-substring> requires <expr>
-            mm = re.match(r'^(\S+)\s+requires\s+(.*)$', rest)
+            mm = re.match(r'^(\S+)\s+requires(\[[^\]]*\])?\s+(.*)$', rest)
             if not mm:
                 raise ValueError('%s:%d: bad call clause' % (path, n))
-            c = mk(mm.group(2))
+            c = mk(mm.group(3), mm.group(2)[1:-1] if mm.group(2) else None)
             if c.label is None:
                 c.label = str(len(cur.calls) + 1)
             cur.calls.append((mm.group(1), c))
@@ -337,8 +340,21 @@ def parse_file(path, cs, repo='/repo', default_pkg=None):
                 head, body = rest[:idx], rest[idx + 1:].strip()
             else:
                 head, body = rest, None
-            mm = re.match(r'^([A-Za-z_][A-Za-z0-9_]*)\s*\((.*)\)\s*(.*)$', head.strip())
-            name, ps, tail = mm.groups()
+            hd = head.strip()
+            mm = re.match(r'^([A-Za-z_][A-Za-z0-9_]*)\s*\(', hd)
+            name = mm.group(1)
+            depth = 0
+            endp = None
+            for ci in range(mm.end() - 1, len(hd)):
+                if hd[ci] == '(':
+                    depth += 1
+                elif hd[ci] == ')':
+                    depth -= 1
+                    if depth == 0:
+                        endp = ci
+                        break
+            ps = hd[mm.end():endp]
+            tail = hd[endp + 1:].strip()
             dec = None
             if ' decreases ' in ' ' + tail + ' ':
                 tail, _, dec = tail.partition('decreases')
@@ -348,6 +364,22 @@ def parse_file(path, cs, repo='/repo', default_pkg=None):
                           exprparse.parse(body) if body else None,
                           exprparse.parse(dec) if dec else None, rest, path, n, imports)
             cs.specs[(pkg, name)] = sf
+        elif kw == 'refine':
+            # refine <ConcreteType> <self-name> as <Iface>
+            mm = re.match(r'^(\S+)\s+(\w+)\s+as\s+(\S+)$', rest)
+            if not mm:
+                raise ValueError('%s:%d: bad refine clause' % (path, n))
+            currefine = {'type': mm.group(1), 'self': mm.group(2), 'iface': mm.group(3), 'pkg': pkg, 'imports': imports,
+                         'ghosts': {}, 'specs': {}}
+            cs.refines.setdefault(pkg, []).append(currefine)
+        elif kw == 'refine-ghost':
+            nm, _, code = rest.partition(' ')
+            cs.refines[pkg][-1]['ghosts'][nm] = exprparse.parse(code.strip())
+        elif kw == 'refine-spec':
+            mm = re.match(r'^([\w.]+)\((.*?)\)\s*=\s*(.*)$', rest)
+            if not mm:
+                raise ValueError('%s:%d: bad refine-spec clause' % (path, n))
+            cs.refines[pkg][-1]['specs'][mm.group(1)] = ([x.strip() for x in mm.group(2).split(',')], exprparse.parse(mm.group(3)))
         elif kw == 'pkg-invariant':
             cs.pkg_invs.setdefault(pkg, []).append(mk(rest))
         elif kw == 'exec':
